@@ -169,6 +169,31 @@ impl FileGen {
             }
             return true;
         }
+        if rng.chance(1, 12) {
+            // write, truncate exactly at the (new) end, then make it durable and look: flush or drop + reopen
+            if rng.chance(1, 2) {
+                self.cx.step(Op::Seek { f, whence: Whence::End, n: 0 });
+                self.files[i].pos = self.files[i].size;
+            }
+            self.op_write(rng, i);
+            if rng.chance(1, 3) {
+                self.cx.step(Op::Seek { f, whence: Whence::End, n: 0 });
+                self.files[i].pos = self.files[i].size;
+            }
+            self.op_truncate(i);
+            if rng.chance(1, 2) {
+                self.cx.step(Op::Flush(f));
+            } else {
+                self.op_reopen(i);
+            }
+            if i < self.files.len() {
+                let f = self.files[i].f;
+                self.cx.step(Op::Seek { f, whence: Whence::Start, n: 0 });
+                self.cx.step(Op::ReadAll(f));
+                self.files[i].pos = self.files[i].size;
+            }
+            return true;
+        }
         match rng.below(100) {
             0..=24 => self.op_seek(rng, i),
             25..=54 => self.op_write(rng, i),
